@@ -52,18 +52,33 @@ impl Path {
     /// so that the error is not greater than `tolerance`.
     pub fn flatten(&self, tolerance: f32) -> Path {
         let mut cur_pt = None;
+        // the start of the current subpath: where Close takes us back to
+        let mut start_pt = None;
         let mut flattened = Path { ops: Vec::new(), winding: Winding::NonZero };
         for op in &self.ops {
             match *op {
-                PathOp::MoveTo(pt) | PathOp::LineTo(pt) => {
+                PathOp::MoveTo(pt) => {
+                    cur_pt = Some(pt);
+                    start_pt = Some(pt);
+                    flattened.ops.push(op.clone())
+                }
+                PathOp::LineTo(pt) => {
+                    if cur_pt.is_none() {
+                        start_pt = Some(pt);
+                    }
                     cur_pt = Some(pt);
                     flattened.ops.push(op.clone())
                 }
                 PathOp::Close => {
-                    cur_pt = None;
+                    cur_pt = start_pt;
                     flattened.ops.push(op.clone())
                 }
                 PathOp::QuadTo(cpt, pt) => {
+                    if cur_pt.is_none() {
+                        // a curve with no current point starts at its control point
+                        start_pt = Some(cpt);
+                        flattened.ops.push(PathOp::LineTo(cpt));
+                    }
                     let start = cur_pt.unwrap_or(cpt);
                     let c = QuadraticBezierSegment {
                         from: start,
@@ -76,6 +91,10 @@ impl Path {
                     cur_pt = Some(pt);
                 }
                 PathOp::CubicTo(cpt1, cpt2, pt) => {
+                    if cur_pt.is_none() {
+                        start_pt = Some(cpt1);
+                        flattened.ops.push(PathOp::LineTo(cpt1));
+                    }
                     let start = cur_pt.unwrap_or(cpt1);
                     let c = CubicBezierSegment {
                         from: start,
